@@ -88,21 +88,23 @@ Theorem C15_gm_early_stop_fixed :
 Proof. exact gm_early_stop_fixed. Qed.
 Print Assumptions C15_gm_early_stop_fixed.
 
-(* accelerated GradientMethod: resid = 0 forces x' = x and z' = x' and makes the next update a
-   plain T-step from x'.  That this step is the identity is the SIDE CONDITION  T x' = x'  (a
-   hypothesis here: x' = T z, not T x; the check searches for an instance where it fails) *)
-Theorem C15_gm_accel_early_stop_under_side_condition :
+(* [core] accelerated GradientMethod (current code: resid = max(||x - x_old||, ||x - z_old||) / alpha, z_old being
+   the extrapolated point the step was taken from).  resid = 0 forces x' = x_old = z_old, hence z' = x' and
+   T x' = x': a genuine fixed point, and the next update leaves x unchanged.  Unconditional (alpha > 0).
+   (With the earlier residual ||x - x_old|| / alpha alone this needed the side condition T x' = x', which the
+   check refuted on a 1-D lasso instance -- kept as the first corpus case of props/C15.py.) *)
+Theorem C15_gm_accel_early_stop_fixed :
   forall (H : IPSpace) (gradf : ipV H -> ipV H) (alpha : R) (proxg : option (R -> ipV H -> ipV H)),
     alpha <> 0 ->
     forall s : gm_state (ops_of H),
       let C := GMClass (ops_of H) gradf alpha proxg true in
+      0 < alpha ->
       gm_resid (update C s) = 0 ->
-      gm_x (update C s) = gm_x s /\ gm_z (update C s) = gm_x (update C s) /\
-      gm_x (update C (update C s)) = gm_T (ops_of H) gradf alpha proxg (gm_x (update C s)) /\
-      (gm_T (ops_of H) gradf alpha proxg (gm_x (update C s)) = gm_x (update C s) ->
-       gm_x (update C (update C s)) = gm_x (update C s)).
-Proof. exact gm_accel_early_stop. Qed.
-Print Assumptions C15_gm_accel_early_stop_under_side_condition.
+      gm_x (update C s) = gm_x s /\ gm_x (update C s) = gm_z s /\ gm_z (update C s) = gm_x (update C s) /\
+      gm_T (ops_of H) gradf alpha proxg (gm_x (update C s)) = gm_x (update C s) /\
+      gm_x (update C (update C s)) = gm_x (update C s).
+Proof. exact gm_accel_early_stop_fixed. Qed.
+Print Assumptions C15_gm_accel_early_stop_fixed.
 
 (* [core] ConjugateGradient: resid = 0 on a healthy state means r = 0, the system is solved, and
    one more update changes nothing but the breakdown flag *)
